@@ -301,6 +301,11 @@ def analyse(obs: Obs, prog):
             if pol and is_t(c, "isinst") and c[1] == P("edit_request"):
                 acc.add(c[2])
     obs.add({"C06", "C12"}, "REQ-ACCEPT", "Scan.edit", acc == {"Regenerate", "Update", "IndexRequest"}, derived=str(sorted(acc)), expected="Regenerate, Update, IndexRequest", where=W(S, "edit"))
+    from .common import dispatch_roles
+    ev_d = Evaluator(prog)
+    ev_d.opaque_methods |= {"edit_regenerate", "edit_update", "edit_index"}
+    r_d = ev_d.eval_fn(S.methods["edit"], S.module, S)
+    dispatch_roles(obs, {"C05", "C07", "C12", "C06"}, "Scan", r_d, {"Regenerate": ["selection"], "Update": ["constraint"], "IndexRequest": ["idx", "request"]}, W(S, "edit"))
     obs.add({"C06"}, "REQ-EXHAUSTIVE", "Scan.edit", len(r.raises) >= 1, derived=f"{len(r.raises)} raising arm(s)", expected="default arm raises", where=W(S, "edit"))
 
     # ---------------------------------------------------------------- derived combinators
